@@ -1,5 +1,6 @@
 //! Verification harness for bmwill/anemo: property-based testing and fuzzing.
 pub mod core;
+pub mod fuzz;
 pub mod fuzzrun;
 pub mod panics;
 pub mod props;
